@@ -150,6 +150,15 @@ func cmdCheck(args []string) int {
 			vcs = append(vcs, r.VC)
 		}
 		dischargeAll(vcs, timeout, sd, runtime.NumCPU())
+		// second chance for obligations that did not get a definite answer (machine load must
+		// not turn into an alarm): one more race with a longer timeout and another seed
+		for _, r := range results {
+			for _, o := range r.VC.obls {
+				if !o.ok() && !o.ExpectSat && o.Status != "sat" && claimed[baseName(o.Name)] {
+					r.VC.race(o, timeout*3, sd+7)
+				}
+			}
+		}
 		for _, r := range results {
 			fe := funcEvidence{Function: r.Key, Unsupported: append(append([]string{}, r.Unsupported...), r.SpecErrs...), Notes: r.VC.notes}
 			be := map[string]bool{}
